@@ -685,9 +685,22 @@ type connScript struct {
 	// DropAt: after the last command, send this many bytes of DropCmd and close the connection (-1: no drop)
 	DropCmd *Cmd `json:"dropcmd,omitempty"`
 	DropAt  int  `json:"dropat,omitempty"`
+
+	midCheck bool // set by the runner: single connection and counters are part of the oracle
 }
 
 const idleNet = 20 * time.Second
+
+// idleAccounting (C12): while the only connection is idle between two commands, all connections are idle; once the data
+// is flushed the tokens must all be back and the four counters zero - checked after EVERY command, so that a leak is
+// pinned to its command and two opposite errors cannot cancel out by the end of the stream.
+func idleAccounting(srv *testServer) string {
+	if e := waitRotationFlushes(); e != nil {
+		return ""
+	}
+	srv.hstore.VerifFlush(true)
+	return counters()
+}
 
 // runScript drives one connection and validates every reply. It returns labels for the statistics.
 func runScript(srv *testServer, conn *scriptConn, sc *connScript, model *pmodel, labels map[string]bool) error {
@@ -756,6 +769,12 @@ func runScript(srv *testServer, conn *scriptConn, sc *connScript, model *pmodel,
 			if closedEarly {
 				break
 			}
+			if sc.midCheck {
+				if msg := idleAccounting(srv); msg != "" {
+					return fmt.Errorf("after pipelined commands %d..%d, with the only connection idle and data flushed: accounting not zero: %s", i-n, i-1, msg)
+				}
+				labels["accounting_checked_between_commands"] = true
+			}
 			continue
 		}
 		c := &sc.Cmds[i]
@@ -802,6 +821,12 @@ func runScript(srv *testServer, conn *scriptConn, sc *connScript, model *pmodel,
 			}
 			closedEarly = true
 			break
+		}
+		if sc.midCheck {
+			if msg := idleAccounting(srv); msg != "" {
+				return fmt.Errorf("after command %d %s, with the only connection idle and data flushed: accounting not zero: %s", i-1, describe(c), msg)
+			}
+			labels["accounting_checked_between_commands"] = true
 		}
 	}
 	if !closedEarly && sc.DropCmd != nil {
